@@ -207,6 +207,11 @@ var vbsScenarios = []vbsScenario{
 	{"change json name", func(s *vbsSchema) { s.f.jsonName = "ff" }, []string{"FIELD_SAME_JSON_NAME"}},
 	{"rename field", func(s *vbsSchema) { s.f.name = "f2" }, []string{"FIELD_SAME_NAME"}},
 	{"move field into oneof", func(s *vbsSchema) { s.f.oneof = s.oneof }, []string{"FIELD_SAME_ONEOF"}},
+	{"real oneof member -> proto3 optional", func(s *vbsSchema) {
+		syn := &vbOneof{name: "_g", synthetic: true}
+		s.g.oneof, s.g.proto3Optional = syn, true
+		s.msg.oneofs = append(s.msg.oneofs, syn)
+	}, []string{"FIELD_SAME_ONEOF"}},
 	{"required label removed", func(s *vbsSchema) { s.h.label = descriptorpb.FieldDescriptorProto_LABEL_OPTIONAL }, []string{"MESSAGE_SAME_REQUIRED_FIELDS"}},
 	{"delete enum reserved range", func(s *vbsSchema) { s.enum.resRngs = nil }, []string{"RESERVED_ENUM_NO_DELETE"}},
 	{"delete message reserved name", func(s *vbsSchema) { s.msg.resNms = nil }, []string{"RESERVED_MESSAGE_NO_DELETE"}},
